@@ -1,6 +1,6 @@
 (* C04 — Serialising a template back to source preserves its meaning.  Property theorems only. *)
 From Coq Require Import String.
-From LiquidVerif Require Import Prelude PyPrims Cond CondPrint Cond_Proofs CondParen CondParen_Proofs StrLit StrLit_Proofs TagTree TagTree_Proofs PathSyntax PathSyntax_Proofs.
+From LiquidVerif Require Import Prelude PyPrims Cond CondPrint Cond_Proofs CondParen CondParen_Proofs StrLit StrLit_Proofs TagTree TagTree_Proofs PathSyntax PathSyntax_Proofs ExprSyntax ExprSyntax_Proofs ExprSyntax_Tags_Proofs.
 Local Open Scope string_scope. Local Open Scope list_scope.
 
 (* for EVERY condition tree (any depth, any mix of and / or / not, comparisons, membership tests and groups) the text that
@@ -70,6 +70,91 @@ Theorem C04_old_string_literal_refuted : let s := [97; 92; 98]%N in
 Proof. exact repr_old_refuted. Qed.
 Print Assumptions C04_old_string_literal_refuted.
 
+(* ---------------- expressions inside tags and output statements (ExprSyntax.v; token level) ----------------
+   A payload is the expression of an output statement / echo (filtered expression or ternary), of assign, for / tablerow
+   (loop expression), case, when, cycle, include, render, or the identifier of capture / increment / decrement. *)
+
+(* for EVERY well-formed payload -- any number of filters and of positional / keyword arguments, ranges and bracketed / nested paths to
+   any depth, any condition tree in a ternary, any combination of limit / offset / cols / reversed, any when-list, cycle with or without
+   group, include / render with bound variable, alias and arguments -- the parser reads back from the tokens str() writes exactly the
+   tree that was serialised; is_property is the implementation's (RE_PROPERTY and not a keyword) *)
+Theorem C04_expression_roundtrip : forall y, wf_payload y = true -> parse_payload (kind_of y) (print_payload expr_is_prop y) = Ok y.
+Proof. exact std_payload_roundtrip. Qed.
+Print Assumptions C04_expression_roundtrip.
+
+(* ... the same for ANY test of what may be written in dotted form, provided it never accepts a keyword *)
+Theorem C04_expression_roundtrip_any_property_test : forall is_prop, (forall s, is_prop s = true -> is_kw s = false) ->
+  forall y, wf_payload y = true -> parse_payload (kind_of y) (print_payload is_prop y) = Ok y.
+Proof. exact payload_roundtrip. Qed.
+Print Assumptions C04_expression_roundtrip_any_property_test.
+
+(* hence the re-parsed payload is the original tree (so it has the same value on every data) and serialises to the same tokens again *)
+Theorem C04_expression_same_meaning : forall y, wf_payload y = true ->
+  exists y', parse_payload (kind_of y) (print_payload expr_is_prop y) = Ok y' /\ y' = y /\ print_payload expr_is_prop y' = print_payload expr_is_prop y.
+Proof. exact (payload_same_meaning expr_is_prop expr_is_prop_not_kw). Qed.
+Print Assumptions C04_expression_same_meaning.
+
+(* from SOURCE tokens: if the parser accepts them and the tree is well formed, then parsing str() again and serialising once more
+   gives the same tokens as str() (that parsed trees without nil ARE well formed is evaluated on every generated source: run_xwf) *)
+Theorem C04_expression_idempotent : forall c y, parse_payload (xc_kind c) (xc_toks c) = Ok y -> wf_payload y = true -> run_xreprint c = run_xprint c.
+Proof. exact xreprint_fixpoint. Qed.
+Print Assumptions C04_expression_idempotent.
+
+(* the layers the payload theorem is built from: a primitive (literal, path, range) followed by any separator or keyword ... *)
+Theorem C04_primitive_roundtrip : forall p rest, wf_prim p = true -> follow_ok rest -> pprim (print_prim expr_is_prop p ++ rest) = Ok (p, rest).
+Proof. exact (pprim_roundtrip expr_is_prop expr_is_prop_not_kw). Qed.
+Print Assumptions C04_primitive_roundtrip.
+
+(* ... and filtered expressions and ternaries (FilteredExpression.parse / TernaryFilteredExpression.parse, the condition through Cond.pp) *)
+Theorem C04_filtered_expression_roundtrip : forall e, wf_expr e = true -> parse_expr true (print_expr expr_is_prop e) = Ok e.
+Proof. exact (expr_roundtrip expr_is_prop expr_is_prop_not_kw). Qed.
+Print Assumptions C04_filtered_expression_roundtrip.
+
+(* capture reads its identifier and requires the end of the expression *)
+Theorem C04_capture_roundtrip : forall s, parse_payload KCapture (print_payload expr_is_prop (YIdent s)) = Ok (YIdent s).
+Proof. exact (capture_roundtrip expr_is_prop expr_is_prop_not_kw). Qed.
+Print Assumptions C04_capture_roundtrip.
+
+(* the recorded finding (nil prints as nothing) is why nil is excluded by the guard: as an argument the text does not parse, in a
+   when-list it silently parses to a shorter list *)
+Theorem C04_nil_argument_refuted :
+  let y := YExpr (XFilt {| fe_left := v1 "x"; fe_filters := [{| f_name := lit "default"; f_args := [AKw (lit "k") PNil; APos (PInt 1)] |}] |}) in
+  parse_payload KExpr (print_payload expr_is_prop y) = Err ESyntax.
+Proof. exact nil_argument_refuted. Qed.
+Print Assumptions C04_nil_argument_refuted.
+
+Theorem C04_nil_when_refuted :
+  parse_payload KWhen (print_payload expr_is_prop (YWhen [PInt 1; PNil; PInt 2])) = Err ESyntax /\
+  parse_when_old (print_payload expr_is_prop (YWhen [PInt 1; PNil; PInt 2])) = Ok [PInt 1].
+Proof. exact nil_when_refuted. Qed.
+Print Assumptions C04_nil_when_refuted.
+
+(* the code before the repairs, refuted by witness (each is replayed on the implementation by the generated cases of layer F) *)
+Theorem C04_old_keyword_segment_refuted :
+  let y := YExpr (XFilt {| fe_left := PPath [SName (lit "x"); SName (lit "if")]; fe_filters := [] |}) in
+  wf_payload y = true /\ print_payload old_is_prop y = [EWord (lit "x"); EDot; EIf] /\
+  parse_payload KExpr (print_payload old_is_prop y) = Err ESyntax.
+Proof. exact old_keyword_segment_refuted. Qed.
+Print Assumptions C04_old_keyword_segment_refuted.
+
+Theorem C04_old_identifier_refuted :
+  print_ident_old (lit "if") = [EIf] /\ parse_payload KIdent (print_ident_old (lit "if")) = Err ESyntax /\
+  parse_payload KIdent (print_payload expr_is_prop (YIdent (lit "if"))) = Ok (YIdent (lit "if")).
+Proof. exact old_identifier_refuted. Qed.
+Print Assumptions C04_old_identifier_refuted.
+
+Theorem C04_old_bound_variable_refuted :
+  let y := YInclude {| in_name := PStr (lit "p"); in_bind := Some ([SName (lit "1x")], None); in_args := [] |} in
+  wf_payload y = true /\ parse_payload_gen false KInclude (print_payload expr_is_prop y) = Err ESyntax.
+Proof. exact old_bound_variable_refuted. Qed.
+Print Assumptions C04_old_bound_variable_refuted.
+
+Theorem C04_old_filter_argument_refuted :
+  let y := YExpr (XFilt {| fe_left := v1 "x"; fe_filters := [{| f_name := lit "f"; f_args := [APos (v1 "a?")] |}] |}) in
+  wf_payload y = true /\ parse_payload_gen false KExpr (print_payload expr_is_prop y) = Err ESyntax.
+Proof. exact old_filter_argument_refuted. Qed.
+Print Assumptions C04_old_filter_argument_refuted.
+
 (* non-vacuity / reading aids *)
 Example C04_print2_example :
   print2 (BOr (BAnd (BVar (lit "a")) (BNot (BVar (lit "b")))) (BCmp OEq (BVar (lit "c")) (BAnd (BVar (lit "a")) (BVar (lit "b"))))) =
@@ -80,3 +165,10 @@ Example C04_structure_example :
   let t := [NText (slit "a"); NBlock (slit "if") (slit "x") [NOut (slit "y")] [(slit "else", [], [NInline (slit "echo") (slit "z"); NRaw (slit "{{")])]] in
   wf_nodes std_kind t = true /\ parse_template std_kind (print_nodes t) = Ok t.
 Proof. vm_compute. split; reflexivity. Qed.
+
+(* the guards of the expression theorems are satisfiable: one payload of every kind, using every construct *)
+Example C04_expression_example :
+  wf_payload (YExpr big_expr) = true /\
+  print_payload expr_is_prop (YWhen [PInt 1; PStr (lit "a"); v1 "y"]) = [EInt 1; EComma; EStr (lit "a"); EComma; EWord (lit "y")] /\
+  parse_payload KExpr (print_payload expr_is_prop (YExpr big_expr)) = Ok (YExpr big_expr).
+Proof. vm_compute. repeat split. Qed.
